@@ -211,6 +211,10 @@ func LeanStage(ctx *Ctx) *LeanResult {
 				res.FactsNote += " facts unchanged"
 			}
 		}
+		// 1b. wave 8: definitions regenerated from the tree by the translator go2lean
+		tnote, tbroken := transStage(ctx, ld)
+		res.FactsNote += tnote
+		res.Broken = append(res.Broken, tbroken...)
 		// 2. executable models
 		currentOracle = "oracle_" + p.ID
 		out, err := runIn(ld, 20*time.Minute, "lake", "build", currentOracle)
@@ -225,6 +229,9 @@ func LeanStage(ctx *Ctx) *LeanResult {
 		buildOK := err == nil
 		if err != nil {
 			res.Broken = append(res.Broken, "lake build Golib.Props."+p.ID+": "+firstError(out))
+			if ties := transTies(verif, p.ID); len(ties) > 0 {
+				res.Broken = append(res.Broken, "tie theorems not re-checked on the definitions regenerated from this tree: "+strings.Join(ties, ", "))
+			}
 		}
 		names, terr := propsTheorems(verif, p.ID)
 		if terr != nil {
